@@ -45,6 +45,7 @@ type Step struct {
 	// copy is injected before the stack had any time to act on the first
 	Twice  bool `json:"twice,omitempty"`
 	nowait bool // first copy of a Twice step
+	repeat bool // second copy of a Twice step: the very segment of the first copy once more
 }
 
 type Script struct {
@@ -130,9 +131,11 @@ func runPassive(sc Script) *evid.Failure {
 			first.nowait = true
 			steps = append(steps, first)
 			evid.Label("step:arrives-twice-back-to-back")
+			st.repeat = true
 		}
 		steps = append(steps, st)
 	}
+	var lastSeg codec.TCPSeg
 	for _, st := range steps {
 		t, k := get(st.Peer, st.Closed)
 		seg := codec.TCPSeg{SrcPort: uint16(5000 + st.Peer), DstPort: listenPort, Flags: st.Flags, Wnd: 30000}
@@ -174,6 +177,12 @@ func runPassive(sc Script) *evid.Failure {
 		if st.Len > 0 {
 			seg.Payload = make([]byte, st.Len)
 		}
+		if st.repeat {
+			// byte for byte the segment of the first copy (sequence numbers derived from the
+			// handshake state must not follow what the first copy did to that state)
+			seg = lastSeg
+		}
+		lastSeg = seg
 		isSyn := st.Flags&codec.SYN != 0
 		oldIRS := t.irs
 		if isSyn {
